@@ -15,7 +15,7 @@ LAYOUTS = [(2, 10), (3, 7), (3, 10), (4, 8), (8, 4), (16, 2), (2, 14), (2, 16), 
 
 def job(fl, be, k, l, bg, seed, reps, rreps, n="1,4,16", alpha=2.0 ** -25, timeout=1800):
     return Job("%s-%s-k%d-l%d-bg%d" % (fl, be, k, l, bg), "drv_c09", fl, be,
-               ["--seed", seed, "--k", k, "--l", l, "--Bgbit", bg, "--reps", reps, "--rreps", rreps, "--n", n, "--alpha", alpha],
+               ["--seed", seed, "--k", k, "--l", l, "--Bgbit", bg, "--reps", reps, "--rreps", rreps, "--n", n, "--alpha", alpha, "--nreps", 24 if reps <= 30 else 240],
                timeout=timeout)
 
 
@@ -54,6 +54,20 @@ def run(tier, seed, t0):
 
     def post(results, agg):
         tab = {}
+        nviol = []
+        ntab = {}
+        for r in results:
+            for e in r.by_type("stat"):
+                s = e["stat"]
+                if s.get("kind") == "extprod-noise":
+                    # coefficients of one product share their digits: count a product as N/8 independent squares (conservative)
+                    neff = max(1.0, s["coefficients"] / 8.0)
+                    lim = 1.0 + 8.0 * (2.0 / neff) ** 0.5
+                    for dom in ("coef", "fft"):
+                        ratio = s["mean_square_over_bound_%s_domain" % dom]
+                        ntab["%s/%s/%s/%s" % (r.job.flavor, r.job.backend, s["config"], dom)] = round(ratio, 4)
+                        if ratio > lim:
+                            nviol.append(("extprod:noise-above-analytic-bound:%s" % dom, {"config": s["config"], "mean_square_over_bound": ratio, "limit": lim, "products": s["products"]}, r))
         for r in results:
             for e in r.by_type("stat"):
                 s = e["stat"]
@@ -65,7 +79,7 @@ def run(tier, seed, t0):
                 for c, n in e["cells"].items():
                     cells["%s:%s:%s" % (r.job.flavor, r.job.backend, c)] = n
         agg["cells"] = cells
-        return [], {"worst_error_over_bound_by_config": tab}
+        return nviol, {"worst_error_over_bound_by_config": tab, "measured_noise_over_analytic_bound": ntab}
 
     return vcheck.simple_run("C09", tier, seed, t0, jobs, "exploration", RULE,
                              ["noiseless TGSW rows are built by the harness with exact integer arithmetic through the public struct fields",
